@@ -41,7 +41,7 @@ def binding_fingerprints(fnode):
         flat = []
         for t in targets:
             flat.extend(_flatten(t))
-        fp_text = alpha_text(node_or_text, fnode)
+        fp_text = alpha_text(node_or_text, fnode, names)
         for i, t in enumerate(flat):
             if isinstance(t, ast.Name) and t.id in out:
                 out[t.id].append('%s @%d/%d' % (fp_text, i, len(flat)))
@@ -51,14 +51,14 @@ def binding_fingerprints(fnode):
         elif isinstance(n, (ast.AugAssign, ast.AnnAssign)):
             add([n.target], n)
         elif isinstance(n, (ast.For, ast.AsyncFor)):
-            add([n.target], 'for %s in %s' % (alpha_text(n.target, fnode), alpha_text(n.iter, fnode)))
+            add([n.target], 'for %s in %s' % (alpha_text(n.target, fnode, names), alpha_text(n.iter, fnode, names)))
         elif isinstance(n, ast.comprehension):
-            add([n.target], 'comp for %s in %s' % (alpha_text(n.target, fnode), alpha_text(n.iter, fnode)))
+            add([n.target], 'comp for %s in %s' % (alpha_text(n.target, fnode, names), alpha_text(n.iter, fnode, names)))
         elif isinstance(n, (ast.With, ast.AsyncWith)):
             for it in n.items:
                 if it.optional_vars is not None:
                     add([it.optional_vars], 'with %s as %s' % (
-                        alpha_text(it.context_expr, fnode), alpha_text(it.optional_vars, fnode)))
+                        alpha_text(it.context_expr, fnode, names), alpha_text(it.optional_vars, fnode, names)))
         elif isinstance(n, ast.ExceptHandler) and n.name and n.name in out:
             out[n.name].append('except %s as $' % (norm_text(n.type) if n.type else ''))
         elif isinstance(n, ast.NamedExpr):
